@@ -638,10 +638,29 @@ def rule_K3(prog, fixture=False):
                     d = _single_def(cs)
                     if d is not None:
                         flag, c = cs, d
+            pol = True
+            for _ in range(4):
+                if c is None:
+                    break
+                cs = c.strip_all()
+                if cs.k == "UnaryOperator" and cs.op == "!" and cs.c:
+                    c, pol = cs.c[0], not pol
+                elif cs.k == "CXXMemberCallExpr" and cs.callee and cs.callee.get("repo") and cs.tc == "bool" \
+                        and (cs.call_object() is None or cs.call_object().strip_all().k == "CXXThisExpr"):
+                    # a predicate of the cache: over_capacity_() { return !(items_map_.size() <= max_size_); }
+                    g = prog.functions.get(cs.callee.get("usr"))
+                    rets = [x for x in g.walk() if x.k == "ReturnStmt" and x.c] if g is not None else []
+                    if len(rets) != 1:
+                        break
+                    c = rets[0].c[0]
+                else:
+                    break
             cmp_ = as_comparison(c) if c is not None else None
             if cmp_ is None:
                 continue
             lhs, op, rhs = cmp_
+            if not pol:
+                op = {"==": "!=", "!=": "==", "<": ">=", ">=": "<", ">": "<=", "<=": ">"}[op]
 
             def is_size(e):
                 e = e.strip_all()
